@@ -5,7 +5,9 @@
 //!  (2) generated F3 programs (nested lambdas, captures of locals and parameters, reassignment before and after
 //!      creation): values/outputs against `Abra.Sem`;
 //!  (3) the capture analysis: per lambda (number of captures, number of locals) read off the real unoptimised
-//!      assembly (`make_closure n`, `push_nil m`) against the model of the analysis (`analysis …` requests).
+//!      assembly (`make_closure n`, `push_nil m`) against the model of the analysis (`analysis …` requests);
+//!  (0) the template families of harness/src/bg9cov.rs that name C19 (Rust oracles: captured named function values,
+//!      capture-position family, builtin / namespace-qualified function values, D80/D102 regressions).
 #[path = "../bg9cov.rs"]
 mod bg9cov;
 #[path = "../progen.rs"]
